@@ -38,13 +38,13 @@ def run(ck):
     meths = m.methods("BoundedDict")
     for need in ("__init__", "__setitem__", "__delitem__", "__del__", "__getitem__"):
         ck.need(need in meths, "BoundedDict.%s vanished" % need)
-    ck.rule("R1", "evicted keys and kept keys are complementary slices of one ranking ordered by use count, most used first", floor=3)
+    ck.rule("R1", "evicted keys and kept keys are complementary slices of one ranking ordered by use count, most used first", floor=1)
     ck.rule("R2", "the deletion callback for a key is dominated by the removal of that key", floor=1)
-    ck.rule("R3", "every change of the key set updates size and use counters consistently", floor=5)
+    ck.rule("R3", "every change of the key set updates size and use counters consistently", floor=4)
     ck.rule("R4", "__del__ calls the callback for every remaining key", floor=1)
     ck.rule("R5", "the keep count (min size) is provably >= 1 for positive constructor arguments", floor=1)
     ck.rule("R6", "the value is stored under the key on every path of __setitem__, after any eviction", floor=1)
-    ck.rule("R7", "eviction only for a new key and only when size reaches the bound", floor=2)
+    ck.rule("R7", "eviction only for a new key and only when size reaches the bound", floor=1)
     ck.rule("R8", "__getitem__ returns the stored value of the key", floor=1)
     ck.rule("R9", "every method that changes the key set of the store also resynchronises the size and the use counters, and reports dropped keys", floor=3)
     _sync_rules(ck, m, meths)
